@@ -168,6 +168,18 @@ def conclude(prop, ctx, res, level="model_checking", rule="", clause_prefix=None
                   ("note.UnexpectedAccept", "note.OverStrict", "note.Unmodelled")},
         "known_findings_hit": {fid: n for fid, (e, n) in kf_hits.items()},
     }
+    # calls on which specification and library disagree about acceptance (never alarms; kept for inspection)
+    note_samples = {}
+    for v in res.verd:
+        if v["clause"] in ("note.UnexpectedAccept", "note.OverStrict") and len(note_samples.setdefault(v["clause"], [])) < 3:
+            tr = res.traces.get(v["tid"])
+            try:
+                ev = tr["events"][v["k"] - 1]
+                note_samples[v["clause"]].append({"op": ev.get("op"), "args": ev.get("args"), "exc": ev.get("exc", ""),
+                                                  "pre": pre_state(tr, v["k"])})
+            except Exception:
+                pass
+    cov["note_samples"] = note_samples
     cov.update({k: v for k, v in res.extra.items() if k not in cov})
     ev = {"property_id": prop, "tier": ctx.tier, "seed": ctx.seed, "level": level, "coverage": cov,
           "assumptions": res.assumptions, "wall_s": round(wall, 2), "violations": nviol}
